@@ -111,6 +111,13 @@ class Bound(Val):
 
 
 @dataclass(eq=False)
+class Partial(Val):
+    fn: Val
+    args: list
+    kwargs: dict
+
+
+@dataclass(eq=False)
 class Alt(Val):
     options: list  # [(Formula, Val)]
 
@@ -163,6 +170,8 @@ def term_of(v: Val) -> tuple:
         return ("cls", v.ci.fq)
     if isinstance(v, Bound):
         return ("bound", term_of(v.recv), v.name)
+    if isinstance(v, Partial):
+        return ("partial", term_of(v.fn), *[term_of(a) for a in v.args])
     return ("?",)
 
 
@@ -261,6 +270,25 @@ class Interp:
         self.atom_info.setdefault(text, info)
         return atom(text)
 
+    def simp(self, f: Formula) -> Formula:
+        """TRUE / FALSE for tautologies / contradictions over few atoms; otherwise the formula itself."""
+        if f[0] in ("const", "atom"):
+            return f
+        names = sorted(atoms_of(f))
+        if len(names) > 8:
+            return f
+        import itertools
+
+        seen_t = seen_f = False
+        for vals in itertools.product([False, True], repeat=len(names)):
+            if evaluate(f, dict(zip(names, vals))):
+                seen_t = True
+            else:
+                seen_f = True
+            if seen_t and seen_f:
+                return f
+        return TRUE if seen_t else FALSE
+
     def note(self, what: str) -> None:
         if what not in self.notes:
             self.notes.append(what)
@@ -279,7 +307,7 @@ class Interp:
             return f_or([f_and([g, self.truth(o)]) for g, o in v.options])
         if isinstance(v, Tup):
             return TRUE if v.items else FALSE
-        if isinstance(v, (Fn, ClsV, Bound, SuperV)):
+        if isinstance(v, (Fn, ClsV, Bound, SuperV, Partial)):
             return TRUE
         if isinstance(v, Inst):
             if self.repo.lookup_method(v.cls, "__bool__") is not None or self.repo.lookup_method(v.cls, "__len__") is not None:
@@ -288,7 +316,12 @@ class Interp:
         if isinstance(v, Coll):
             if not v.entries:
                 return FALSE
-            return self.mk_atom(f"nonempty(coll#{v.serial})", kind="nonempty", coll=v)
+            if all(g == TRUE for _x, g in v.entries) and not any(isinstance(x, Sym) and any(isinstance(st, tuple) and st and st[0] in ("elem", "key", "val") for st in subterms(x.term)) for x, _g in v.entries):
+                return TRUE  # holds elements that were put there unconditionally and not by a symbolic iteration
+            a = self.mk_atom(f"nonempty(coll#{v.serial})", kind="nonempty", coll=v)
+            if a[0] == "atom":
+                self.atom_info[a[1]]["witnesses"] = [g for _x, g in v.entries]
+            return a
         if isinstance(v, DictV):
             if not v.entries:
                 return FALSE
@@ -432,6 +465,10 @@ class Interp:
             return lv.f if rv.value else f_not(lv.f)
         if isinstance(rv, BoolF) and isinstance(lv, Const) and isinstance(lv.value, bool):
             return rv.f if lv.value else f_not(rv.f)
+        for a, b in ((lv, rv), (rv, lv)):
+            empty_lit = (isinstance(b, (Coll, DictV)) and not b.entries and getattr(b, "literal", False)) or (isinstance(b, Tup) and not b.items)
+            if empty_lit and isinstance(a, (Sym, Coll, DictV)) and not (isinstance(a, (Coll, DictV)) and getattr(a, "literal", False) and not a.entries):
+                return f_not(self.truth(a))
         if isinstance(lv, Coll) and isinstance(rv, Coll) and not lv.entries and not rv.entries:
             return TRUE
         if isinstance(lv, Coll) and isinstance(rv, Coll) and (not lv.entries or not rv.entries):
@@ -581,6 +618,13 @@ class Interp:
                         return first
                     if len(e.values) == 2 and ((isinstance(e.op, ast.Or) and t == FALSE) or (isinstance(e.op, ast.And) and t == TRUE)):
                         return self.eval(e.values[1], fr)
+                    if len(e.values) == 2 and isinstance(first, (Sym, Coll, DictV, Inst, Tup)):
+                        cond = f_not(t) if isinstance(e.op, ast.Or) else t
+                        self.path.append(cond)
+                        second = self.eval(e.values[1], fr)
+                        self.path.pop()
+                        if not isinstance(second, (BoolF,)) and not (isinstance(second, Const) and isinstance(second.value, bool)):
+                            return self.mk_alt([(f_not(cond), first), (cond, second)])
             f = self.truth_expr(e, fr)
             return Const(True) if f == TRUE else Const(False) if f == FALSE else BoolF(f)
         if isinstance(e, ast.IfExp):
@@ -606,6 +650,7 @@ class Interp:
             return Tup(tuple(items))
         if isinstance(e, (ast.List, ast.Set)):
             c = Coll("list" if isinstance(e, ast.List) else "set", [], self.serial())
+            c.literal = not e.elts  # type: ignore[attr-defined]
             for x in e.elts:
                 if isinstance(x, ast.Starred):
                     sub = self.iterate(self.eval(x.value, fr))
@@ -615,6 +660,7 @@ class Interp:
             return c
         if isinstance(e, ast.Dict):
             d = DictV([], self.serial())
+            d.literal = not e.keys  # type: ignore[attr-defined]
             for k, v in zip(e.keys, e.values):
                 if k is None:
                     src = self.eval(v, fr)
@@ -665,6 +711,21 @@ class Interp:
             return v
         if isinstance(e, ast.Starred):
             return self.eval(e.value, fr)
+        if isinstance(e, (ast.Yield, ast.YieldFrom)):
+            f: Frame | None = fr
+            while f is not None and not hasattr(f, "gen"):
+                f = f.closure
+            v = self.eval(e.value, fr) if e.value is not None else Const(None)
+            if f is not None:
+                if isinstance(e, ast.Yield):
+                    f.gen.entries.append((v, self.guard()))  # type: ignore[attr-defined]
+                else:
+                    ents = self.iterate(v)
+                    if ents is None:
+                        ents = [(Sym(("elem", term_of(v), self.fresh_iter())), TRUE)]
+                    g = self.guard()
+                    f.gen.entries += [(x, f_and([g, gx])) for x, gx in ents]  # type: ignore[attr-defined]
+            return Const(None)
         if isinstance(e, ast.Slice):
             return Sym(("slice",))
         self.note(f"expression kind {type(e).__name__}")
@@ -673,6 +734,7 @@ class Interp:
     def mk_alt(self, options: list) -> Val:
         flat = []
         for g, v in options:
+            g = self.simp(g)
             if g == FALSE:
                 continue
             if isinstance(v, Alt):
@@ -925,6 +987,8 @@ class Interp:
             return self.instantiate(fv.ci, args, kwargs, node, fr)
         if isinstance(fv, Bound):
             return self.builtin_method(fv.recv, fv.name, args, kwargs, node, fr)
+        if isinstance(fv, Partial):
+            return self.apply(fv.fn, [*fv.args, *args], {**fv.kwargs, **kwargs}, node, fr)
         if isinstance(fv, Sym):
             t = fv.term
             if t[0] == "lib":
@@ -959,9 +1023,7 @@ class Interp:
             res = self.opaque_call(fi.qualname if fi.cls is not None and recv is None else fi.name, recv, args, kwargs, node, fr, self._ret_cls(fi))
             self.events[-1].callee = fi
             return res
-        if any(isinstance(n, (ast.Yield, ast.YieldFrom)) for n in _own(fi.node)):
-            self.note(f"generator {fi.fq}")
-            return self.opaque_call(fi.name, selfv, args, kwargs, node, fr)
+        is_gen = any(isinstance(n, (ast.Yield, ast.YieldFrom)) for n in _own(fi.node))
         a = fi.node.args
         pos = [p.arg for p in [*a.posonlyargs, *a.args]]
         env: dict = {}
@@ -995,8 +1057,14 @@ class Interp:
         try:
             if isinstance(fi.node, ast.Lambda):
                 result: Val = self.eval(fi.node.body, new)
+            elif is_gen:
+                # a generator: its value is the collection of the yielded elements (each under the guard of its `yield`)
+                new.gen = Coll("iter", [], self.serial())  # type: ignore[attr-defined]
+                self.exec_block(fi.node.body, new)
+                result = new.gen  # type: ignore[attr-defined]
             else:
                 rx, _lx = self.exec_block(fi.node.body, new)
+                rx = self.simp(rx)
                 opts = list(new.returns)
                 if rx != TRUE:
                     opts.append((f_not(rx), Const(None)))
@@ -1174,6 +1242,12 @@ class Interp:
         if name == "next" and a0 is not None:
             ents = self.iterate(a0)
             return ents[0][0] if ents else (args[1] if len(args) > 1 else Sym(("next", term_of(a0))))
+        if name == "sum" and len(args) == 2 and isinstance(args[1], Coll) and a0 is not None:
+            out = Coll("list", list(args[1].entries), self.serial())
+            for x, g in self.iterate(a0) or []:
+                for y, gy in self.iterate(x) or []:
+                    out.entries.append((y, f_and([g, gy])))
+            return out
         if name in ("str", "repr", "int", "float", "min", "max", "sum", "abs", "hash", "id", "type", "format", "round", "ord", "chr"):
             if name == "str" and isinstance(a0, Const) and isinstance(a0.value, str):
                 return a0
@@ -1250,6 +1324,8 @@ class Interp:
             return Sym(("fields", term_of(a0)))
         if fq == "collections.defaultdict":
             return DictV([], self.serial())
+        if fq == "functools.partial" and a0 is not None:
+            return Partial(a0, list(args[1:]), dict(kwargs))
         return self.opaque_call(fq, None, args, kwargs, node, fr)
 
     def _replace(self, base: Val, overrides: dict, node: ast.AST | None, fr: Frame | None) -> Val:
@@ -1363,7 +1439,7 @@ class Interp:
                 rx = f_or([rx, f_and([here, r])])
             if l != FALSE:
                 lx = f_or([lx, f_and([here, l])])
-            ex = f_or([r, l])
+            ex = self.simp(f_or([r, l]))
             if ex == TRUE:
                 break
             if ex != FALSE:
@@ -1434,7 +1510,7 @@ class Interp:
         if isinstance(s, (ast.Continue, ast.Break)):
             return FALSE, TRUE
         if isinstance(s, ast.If):
-            t = self.truth_expr(s.test, fr)
+            t = self.simp(self.truth_expr(s.test, fr))
             if t == TRUE:
                 return self.exec_block(s.body, fr)
             if t == FALSE:
